@@ -188,22 +188,38 @@ def _walk(evo, ts, entry, p0, H, t0, tol, timedep_ref=None, progbar=False):
                     return f"{nm} not conserved at t={t:.6g}: {a:.10f} -> {b:.10f}"
         return None
 
+    # frame: a state handed out for an earlier time stays the state of THAT time when the evolution moves on
+    held = []
+
+    def hold(t, obj):
+        held.append((t, obj, np.array(_dense(obj))))
+
+    def held_intact():
+        for t, obj, snap in held:
+            now = np.asarray(_dense(obj))
+            if now.shape != snap.shape or not np.array_equal(now, snap):
+                return (f"the state object reported for t={t:.6g} was modified by a later update "
+                        f"(max change {np.abs(now - snap).max():.3g}): earlier results are overwritten")
+        return None
+
     if entry == "update_to":
         for t in ts:
             evo.update_to(t)
             e = after(t)
             if e:
                 return e
+            hold(t, evo.pt)
     else:
         k = 0
         for t, pt in zip(ts, evo.at_times(ts)):
             e = after(t, pt)
             if e:
                 return e
+            hold(t, pt)
             k += 1
         if k != len(ts):
             return f"at_times yielded {k} states for {len(ts)} times"
-    return None
+    return held_intact()
 
 
 # ------------------------------------------------------------------------------------------------
@@ -437,12 +453,16 @@ def callbacks(cx):
                 p = _dense(p)
                 return complex(np.vdot(p, A @ p)) if p.shape[1] == 1 else complex(np.trace(A @ p))
 
+            raw = []           # the state OBJECTS handed to the callbacks / reported, with a snapshot
+
             def f2(t, p):
                 seen.append((t, np.array(_dense(p)), None))
+                raw.append((f"callback at t={t:.4g}", p, np.array(_dense(p))))
                 return obs(p)
 
             def f3(t, p, ham):
                 seen.append((t, np.array(_dense(p)), ham))
+                raw.append((f"callback at t={t:.4g}", p, np.array(_dense(p))))
                 return obs(p)
 
             def g2(t, p):
@@ -463,9 +483,17 @@ def callbacks(cx):
                 for tt in ts:
                     evo.update_to(tt)
                     reported.append((evo.t, np.array(_dense(evo.pt))))
+                    raw.append((f"evo.pt after update_to({tt:.4g})", evo.pt, np.array(_dense(evo.pt))))
             else:
                 for tt, pt in zip(ts, evo.at_times(ts)):
                     reported.append((evo.t, np.array(_dense(pt))))
+                    raw.append((f"state yielded by at_times for t={tt:.4g}", pt, np.array(_dense(pt))))
+            # frame: objects handed out earlier are not overwritten by later updates
+            for what, obj, snap in raw:
+                now = np.asarray(_dense(obj))
+                if now.shape != snap.shape or not np.array_equal(now, snap):
+                    return (f"{what}: the object was modified by a later update (max change {np.abs(now - snap).max():.3g}); "
+                            f"a recorded earlier state no longer is the state of its time")
             for (tt, pt), want in zip(reported, ts):
                 if abs(tt - want) > 1e-12:
                     return f"reported time {tt} != requested {want}"
